@@ -18,6 +18,7 @@
      f ratio to_overall = min_g fold(q_g / o) when o > 0, NaN / 0 when o = 0;  group_min / group_max.
    Single-member groups and groups without positives / negatives are covered (no premise excludes them). *)
 From Coq Require Import QArith ZArith List Bool.
+From FL Require Disagg.
 From FL Require Import Num ListX BaseRates BaseRates_proofs Aggregates Aggregates_proofs Fairness Fairness_proofs.
 From FLGen Require Gen_labels Gen_ratio Gen_fairness.
 Import ListNotations.
@@ -246,6 +247,16 @@ Theorem C03_derived_default_method :
   = derived b t Between y_true y_pred sf sw.
 Proof. exact derived_default_method. Qed.
 Print Assumptions C03_derived_default_method.
+
+(* bridge to C01 (FL.Disagg, where MetricFrame's group-by is modelled and proved exact): for one sensitive
+   column the row mask of index key [g] and the column slicing of that model are the ones used here, and
+   its by_group index is the sorted unique group list *)
+Theorem C03_bridge_to_C01 :
+  (forall g (sf : list Z), Disagg.mask_of [g] (Disagg.row_keys [sf] (length sf)) = map (Z.eqb g) sf) /\
+  (forall (A : Type) (m : list bool) (c : list A), Disagg.sel m c = sel m c) /\
+  (forall c : list Z, kuniq (map (fun s => [s]) c) = map (fun s => [s]) (zuniq c)).
+Proof. exact bridge_to_disagg. Qed.
+Print Assumptions C03_bridge_to_C01.
 
 (* non-vacuity: the witness of fix d0bb89c -- group 97 is a single weighted row, group 98 has no
    negative label (empty FPR denominator); the premises hold and the model gives 1/2 *)
